@@ -1,7 +1,7 @@
 (* C10 — Shard and replica routing is deterministic and consistent end to end.
    This file holds only the property theorems (closed by [exact]) and non-vacuity examples. *)
 From Coq Require Import ZArith List Bool.
-From SH Require Import Common.Wrap Routing.Model Routing.Proofs.
+From SH Require Import Common.Wrap Routing.Model Routing.Proofs Gen.Filing Routing.GenTie.
 Open Scope Z_scope.
 
 (* "the shard an agent writes to is within the configured shard count … a secondary shard, when
@@ -67,6 +67,28 @@ Theorem C10_rounding_total :
   forall t rk, 0 <= t -> t + 2 < two32 -> 1 <= rk <= 3 ->
   exists r, round_to_our_time 3 t rk = Some r /\ r mod 3 = rk - 1 /\ t <= r <= t + 2.
 Proof. exact round_to_our_time_total. Qed.
+
+(* a second filed into the recent window is one the insert ticker of this replica hands to the inserter *)
+Theorem C10_filed_recent_is_sent_by_ticker :
+  forall historic t oldest newest hw rk r,
+  0 <= t -> t + 2 < two32 -> 1 <= rk <= 3 ->
+  file_bucket historic t oldest newest hw rk = Some (FRecent r) -> ticker_inserts r rk = true.
+Proof. exact filed_recent_is_sent_by_ticker. Qed.
+
+(* The model of the rounding loop, of the filing decision and of the ticker filter IS what the source
+   says: Gen/Filing.v is re-generated from aggregator_handlers.go / aggregator.go on every run. *)
+Theorem C10_model_is_handler_source_round :
+  forall t r rk, gen_round_init t = t /\ gen_round_continue r rk = negb (r mod 3 =? u32 (rk - 1)) /\ gen_round_step r = u32 (r + 1).
+Proof. exact gen_round_tie. Qed.
+
+Theorem C10_model_is_handler_source_filing :
+  forall h t r oldest newest hw, is_u32 r -> is_u32 oldest ->
+  gen_file h t r oldest newest hw = file_decision h t r oldest newest hw.
+Proof. exact gen_file_tie. Qed.
+
+Theorem C10_model_is_ticker_source :
+  forall bt rk, gen_ticker_skip bt rk = negb (ticker_inserts bt rk).
+Proof. exact gen_ticker_tie. Qed.
 
 (* non-vacuity: concrete configurations satisfying the premises, with non-trivial outcomes *)
 Definition ex_meta := {| m_metric_id := -1001; m_fixed_key := 0; m_fixed_key2 := 3; m_strategy := SByMetricID; m_shard_num := 0 |}.
